@@ -23,6 +23,7 @@ RE_ATX = re.compile(r'^(#{1,6}|#[\ue000-\ue0ff])(?:[ ]+|$)(.*)$')     # '#' + pr
 RE_FENCE = re.compile(r'^(`{3,}|~{3,})\s*([^`]*)$')
 RE_RULE = re.compile(r'^(?:(?:-[ ]*){3,}|(?:\*[ ]*){3,}|(?:_[ ]*){3,})$')
 RE_SETEXT = re.compile(r'^(=+|-+)[ ]*$')
+RE_TABLELEAF = re.compile(r'^TABLE\w*$')     # stands for the text of a table (harness stub of the cmark table writer)
 RE_BULLET = re.compile(r'^([-*+])([ ]+|$)')
 RE_ORDERED = re.compile(r'^(\d{1,9})([.)])([ ]+|$)')
 
@@ -133,6 +134,13 @@ def add_line(doc, line):
             cont = block_parent(doc, cont)
             cont.c.append(N('fence', fence=m.group(1), ind=ind, info=m.group(2).strip()))
             return
+        if RE_TABLELEAF.match(body) and not (para_tip is not None and not started and not direct):
+            # a table starts a block wherever its container continues (it may interrupt a paragraph); on a lazy line it is
+            # paragraph text like any other
+            cont = block_parent(doc, cont)
+            tb = N('table'); tb.lines.append(body); tb.open = False
+            cont.c.append(tb)
+            return
         if direct and RE_SETEXT.match(body):
             para_tip.k = 'heading'
             para_tip.a['lv'] = 1 if body[0] == '=' else 2
@@ -223,8 +231,34 @@ def neutral(n):
             out.append({'k': 'C', 't': '\n'.join(ls) + ('\n' if ls else ''), 'lang': (c.a.get('info') or None) if c.k == 'fence' else None})
         elif c.k == 'rule':
             out.append({'k': 'R'})
+        elif c.k == 'table':
+            out.append({'k': 'T', 't': c.lines[0]})
         elif c.k == 'quote':
             out.append({'k': 'Q', 'c': neutral(c)})
         elif c.k == 'list':
             out.append({'k': 'BL' if c.a['kind'][0] == 'b' else 'OL', 'items': [neutral(it) for it in c.c]})
+    return out
+
+
+# ---- inline level, for the texts the harnesses write: words, *emphasis*, [text](url) ----------------------------------------
+RE_INLINE = re.compile(r'\*([^*]+)\*|\[\[([^\]|]*)(?:\|([^\]]*))?\]\]|\[([^\]]*)\]\(([^)\s]*)\)')
+
+def inlines(text):
+    """[('str', s) | ('emph', [..]) | ('link', url, text[, link type])]"""
+    out, pos = [], 0
+    for m in RE_INLINE.finditer(text):
+        if m.start() > pos:
+            out.append(('str', text[pos:m.start()]))
+        if m.group(1) is not None:
+            out.append(('emph', inlines(m.group(1))))
+        elif m.group(2) is not None:
+            if m.group(3) is not None:
+                out.append(('link', m.group(2), m.group(3), 'WikiLinkPiped'))
+            else:
+                out.append(('link', m.group(2), m.group(2), 'WikiLink'))
+        else:
+            out.append(('link', m.group(5), m.group(4)))
+        pos = m.end()
+    if pos < len(text):
+        out.append(('str', text[pos:]))
     return out
